@@ -306,15 +306,29 @@ def run_harness(h, replay_bins, tier_caps):
         # replay every failed assertion for which Kani produced concrete values
         res["replays"] = []
         for f in pk["failed"]:
-            pb = [p for p in pk["playback"] if p["kind"] != "cover" and p["desc"] == f["desc"]]
-            if not pb:
+            # Kani de-duplicates playback tests with identical concrete values (CBMC reuses one model for
+            # several properties), so the values for this assertion may be filed under another check:
+            # try the block for this assertion first, then every other block; a candidate counts only if
+            # the native run fails the same check.
+            cands = [p for p in pk["playback"] if p["kind"] != "cover" and p["desc"] == f["desc"]]
+            cands += [p for p in pk["playback"] if p not in cands]
+            if not cands:
                 res["replays"].append({"desc": f["desc"], "reproduced": None, "why": "no concrete values from Kani"})
                 continue
-            vals = pb[0]["vals"]
-            rp = native_replay(name, vals, replay_bins)
-            rp["desc"] = f["desc"]
-            rp["vals"] = vals
-            res["replays"].append(rp)
+            best = None
+            for c in cands:
+                rp = native_replay(name, c["vals"], replay_bins)
+                rp["desc"] = f["desc"]
+                rp["vals"] = c["vals"]
+                is_ck = f["loc"].find("incrate/") >= 0
+                same = (f["desc"] in rp.get("native_failed", [])) or (not is_ck and rp.get("native_failed"))
+                if rp.get("reproduced") and same:
+                    best = rp
+                    break
+                if best is None:
+                    rp["reproduced"] = False
+                    best = rp
+            res["replays"].append(best)
         res["status"] = "FAILED"
         return res
     if pk["unwind_fail"]:
